@@ -198,7 +198,8 @@ class MCLevyCopulaSimulation:
                 for j in range(i + 1, dimension):
                     adj_matrix[i, j] = adj_matrix[j, i] = next(outputs)
 
-        variance_matrix = np.dot(adj_matrix, adj_matrix.T) + model_variance
+        # adj_matrix is the covariance matrix of the jumps inside the central cell (a variance, not a volatility)
+        variance_matrix = adj_matrix + model_variance
         # symmetric positive semi-definite square root (scipy.linalg.sqrtm returns infinite entries for singular matrices,
         # e.g. when several margins have no Brownian component)
         eigenvalues, eigenvectors = np.linalg.eigh(variance_matrix)
